@@ -15,7 +15,7 @@ PROPERTY = "C13"
 LEVEL = "exploration"
 RULE = ("case = program using a random subset of runtime-using statements, with string literals / DATA items / comments that "
         "contain the words RUN ecb_x, PROCEDURE foo, ': STRING<<>>' and (comments only) odd numbers of quote characters, x "
-        "procedure name x default string size in {32,64,200}; distinct = (set of bundled procedures, hostile text kind, size); "
+        "procedure name x default string size in {1,16,31,32,64,200}; distinct = (set of bundled procedures, hostile text kind, size); "
         "non-trivial = a bundle was produced and checked")
 ASSUMPTIONS = ["library call graph = RUN statements of each procedure as parsed by vlib/b09ref (strings, DATA and comments excluded)",
                "gfx2, gfx, syscall, inkey are OS-9 system modules"]
@@ -226,5 +226,5 @@ def cases(tier, seed):
     n = 400 if tier == "quick" else 60000
     names = ["prog", "my-p", "A_1", "x", "9lives", "bad name", "é", "", "Zz-9_"]
     for i in range(n):
-        yield {"seed": seed * 2654435 + i, "size": [32, 64, 200][i % 3], "procname": names[i % len(names)],
+        yield {"seed": seed * 2654435 + i, "size": [32, 64, 200, 16, 1, 31][i % 6], "procname": names[i % len(names)],
                "hostile": i % 4 != 3, "sample": i % 150 == 0}
